@@ -122,6 +122,9 @@ func (o *OptModel) Build(p *Project) api.BuildOptions {
 		b.External = []string{"react", "react/jsx-runtime", "react/jsx-dev-runtime"}
 	}
 	b.EntryPoints = p.EntryPaths()
+	if globOn {
+		b.EntryPoints = append(b.EntryPoints, "src/entries/*.js")
+	}
 	b.Format = []api.Format{api.FormatESModule, api.FormatCommonJS, api.FormatIIFE}[o.Format]
 	b.Platform = []api.Platform{api.PlatformBrowser, api.PlatformNode, api.PlatformNeutral}[o.Platform]
 	b.MinifyWhitespace, b.MinifyIdentifiers, b.MinifySyntax = o.MinifyWS, o.MinifyIDs, o.MinifySyn
